@@ -15,15 +15,15 @@ from vmon.ref import pairs
 
 ID = 'C26'
 RULE = ('crystal as in C24 (30% named, else random Bravais type, 2-D/3-D, 1-2 species, <=3 sites of the vacancy species), '
-        'cut-off after neighbour shell 1..2 and a second cut-off after shell 1..3 on the same crystal; (a) StarSet(N in 1..3, <= 320 states, origin states on in 70%) -> omega1/omega2 '
-        'networks; (b) VacancyMediated(Nthermo in 1..2, kinetic set <= 260 / 200 states) -> pruned networks; non-trivial = '
+        'cut-off after neighbour shell 1..2 and a second cut-off after shell 1..3 on the same crystal; (a) StarSet(N in 1..3, <= 320 states [420 thorough], origin states on in 70%) -> omega1/omega2 '
+        'networks; (b) VacancyMediated(Nthermo in 1..2, kinetic set <= 260 / 200 states [340 / 260 thorough]) -> pruned networks; non-trivial = '
         'at least two omega1 classes; distinct = (structure kind, sites, |G|, range, omega1 classes, omega2 classes, pruned?)')
 ASSUMPTIONS = ['reference space group = vmon.ref.geom.full_group (cases where its order differs from len(crys.G) are skipped)',
                'displacements compared to 1e-9',
                'the thermodynamic / kinetic ranges of a calculator are the model BFS sets of Nthermo / Nthermo+1 jumps; the '
                "calculator's own star sets are required to coincide with them (C26:ranges)",
-               'networks without any omega1 hop (closed pairs of sites) are not given to VacancyMediated (its constructor '
-               'raises in zeroclean on empty arrays; counted as empty_om1_skipped)']
+               'only construction and the network tables of a calculator are exercised (Lij is never called, so '
+               'non-percolating networks are admissible inputs)']
 REQUIRED_OBS = {'networks_checked': 150, 'eval:C26:om1-complete': 80, 'eval:C26:om2-complete': 80, 'eval:C26:om1-orbit': 300,
                 'eval:C26:om2-orbit': 100, 'eval:C26:om1-dx': 80, 'eval:C26:om1-jumptype': 80, 'eval:C26:om1-starpair': 80,
                 'eval:C26:pruned-exactly-outer': 25, 'calculators_checked': 25, 'calculators_with_pruning': 15, 'outer_outer_hops': 500,
@@ -35,8 +35,9 @@ CHUNK = 2
 
 
 def cases(tier, seed):
-    n = 40 if tier == 'quick' else 480
-    return [{'seed': seed, 'idx': i, 'hashseed': i % 5} for i in range(n)]
+    if tier == 'quick':
+        return [{'seed': seed, 'idx': i, 'hashseed': i % 5} for i in range(40)]
+    return [{'seed': seed, 'idx': i, 'hashseed': i % 7, 'big': True} for i in range(480)]
 
 
 def check_network(mon, pg, keys, starindex, net, model, which, what, desc, tags=()):
@@ -106,6 +107,8 @@ def run_case(case):
     mon = Mon()
     rng = gen.rng_for(case['seed'], case['idx'], 26)
     sample = None
+    big = bool(case.get('big'))
+    cap, cap1, cap2 = (420, 340, 260) if big else (320, 260, 200)
     for rep in range(PER_CASE * VARIANTS):
         if rep % VARIANTS == 0:
             crys, chem, jn, desc, kind = pairs.rand_network(rng, gen, named_prob=0.3, maxshell=2)
@@ -123,7 +126,7 @@ def run_case(case):
         desc['hashseed'] = case.get('hashseed')
         sizes = {}
         for N in (1, 2, 3):
-            r = pg.reachable(N, cap=320)
+            r = pg.reachable(N, cap=cap)
             if r is None: break
             sizes[N] = r
         if not sizes:
@@ -160,16 +163,14 @@ def run_case(case):
             mon.sig([kind, pg.N, len(pg.group), N, len(n1[0]), len(n2[0]), False])
 
         # ---- (b) calculator level: pruning ----------------------------------------------------
-        cand = [nt for nt in (1, 2) if nt + 1 in sizes and len(sizes[nt + 1]) <= (260 if nt == 1 else 200)]
+        cand = [nt for nt in (1, 2) if nt + 1 in sizes and len(sizes[nt + 1]) <= (cap1 if nt == 1 else cap2)]
         if not cand or rng.uniform() < 0.25: continue
         Nth = int(cand[-1] if rng.uniform() < 0.35 else cand[0])
         thermo = set(sizes[Nth])
         kin = set(sizes[Nth + 1]) | zeros
         a1, a2 = pg.hops(kin)
         want1 = {p: v for p, v in a1.items() if p[0] in thermo or p[1] in thermo}
-        if not want1:
-            mon.count('empty_om1_skipped')
-            continue
+        mon.count('empty_om1_calculators', not want1)
         d2 = dict(desc, Nthermo=Nth)
         calc = None
         with mon.guard('C26:VacancyMediated'):
